@@ -11,7 +11,7 @@ func init() {
 		ID:  "C06",
 		Run: runC06,
 		Decided: "the lookup of PutValue is reached only on the nil-error edge of the local store, which stores MakePutRecord(key, value) under key, and the same record goes to every peer (R1); the send loops range over exactly the slice the lookup returned (result.peers, never the list with failed peers), have no early exit, start one worker per peer which only logs its error (R2); " +
-			"every ADD_PROVIDER built by the DHT names {self, FilteredAddrs()}, the host's raw addresses are read only inside FilteredAddrs (R3); the local provider record is added before any broadcast (R4); no announcement without addresses (R5); corrective puts go to the result peers not known to hold the best value, that set is rebuilt whenever best changes, and none are sent after an abort (R6); optimistic provide schedules each peer once, under its lock, and the context of its asynchronous puts is not cancelled by returning (R7). Added after the seeded rounds: every return of PutValue that may carry a nil error is dominated by the lookup (R1).",
+			"every ADD_PROVIDER built by the DHT names {self, FilteredAddrs()}, the host's raw addresses are read only inside FilteredAddrs (R3); the local provider record is added before any broadcast (R4); no announcement without addresses (R5); corrective puts go to the result peers not known to hold the best value, that set is rebuilt whenever best changes, and none are sent after an abort (R6); optimistic provide schedules each peer once, under its lock, and the context of its asynchronous puts is not cancelled by returning (R7). Added after the seeded rounds: every return of PutValue that may carry a nil error is dominated by the lookup (R1). Round 4: the optimistic provide's cancellation watcher ends with the function (R8 = C03.R11); no network wait happens while the sender-map lock may be held (R9, may-lockset); the corrective puts of a completed value search run under the client's lifetime context and are not cancelled by the goroutine that starts them (R6, defect D18).",
 		NotDecided: "which peers the lookup returns; delivery of the messages themselves.",
 	})
 }
